@@ -115,7 +115,8 @@ PObs(e, d, s, m) ==
   ELSE IF op = "is_disjoint_from" THEN V1(e.rb = (\A i \in 1..Len(AA), j \in 1..Len(BB) : HEmpty(AA[i] \o BB[j], m)), "C09:is_disjoint_from")
   ELSE IF op = "geometrically_covers" THEN (IF ~Cheap(BB, AA) THEN "und" ELSE V1(e.rb = Covers(BB, AA, m), "C09:geometrically_covers"))
   ELSE IF op = "geometrically_equals" THEN (IF ~Cheap(BB, AA) THEN "und" ELSE V1(e.rb = SameU(AA, BB, m), "C09:geometrically_equals"))
-  ELSE IF op = "relation_with_constraint" /\ UEmpty(d) THEN "und"
+  \* (how an undetected-empty disjunct enters the combination of the per-disjunct relations is not specified)
+  ELSE IF op = "relation_with_constraint" /\ (\E i \in 1..Len(d.D) : QEmpty(d.D[i].V)) THEN "und"
   ELSE IF op = "relation_with_constraint" THEN
        LET c == Row(e.k, Pad(e.v, m))  xs == [i \in 1..Len(d.D) |-> RelCon(d.D[i].H, d.D[i].V, c, m)]
            inc == \A i \in 1..Len(xs) : xs[i].inc  dis == \A i \in 1..Len(xs) : xs[i].dis  sat == \A i \in 1..Len(xs) : xs[i].sat IN
@@ -187,8 +188,10 @@ PMut(e, d, s, r, m) ==
            L == [k \in 1..(Len(AA) * Len(BB)) |-> ExtBy(AA[((k-1) \div Len(BB)) + 1], s.n) \o sh(BB[((k-1) % Len(BB)) + 1])] IN
        IF r.n # d.n + s.n THEN "C09:concatenate" ELSE IF Len(AA) = 0 \/ Len(BB) = 0 THEN V1(Len(r.D) = 0, "C09:concatenate") ELSE W(IsUnion(r, L, m + s.n), "C09:concatenate")
   ELSE IF op = "time_elapse" THEN
-       (IF Len(AA) = 0 \/ Len(BB) = 0 THEN V1(Len(r.D) = 0, "C09:time_elapse") ELSE IF ~c THEN "und"
-        ELSE LET L == [k \in 1..(Len(AA) * Len(BB)) |-> HOfClosed(TimeElapseV(d.D[((k-1) \div Len(BB)) + 1], s.D[((k-1) % Len(BB)) + 1]), m)] IN W(IsUnion(r, L, m), "C09:time_elapse"))
+       \* (pairs with an (undetected-)empty disjunct contribute nothing)
+       (LET dN == NE(d)  sN == NE(s) IN
+        IF Len(dN) = 0 \/ Len(sN) = 0 THEN V1(UEmpty(r), "C09:time_elapse") ELSE IF ~c THEN "und"
+        ELSE LET L == [k \in 1..(Len(dN) * Len(sN)) |-> HOfClosed(TimeElapseV(dN[((k-1) \div Len(sN)) + 1], sN[((k-1) % Len(sN)) + 1]), m)] IN W(IsUnion(r, L, m), "C09:time_elapse"))
   ELSE IF op = "simplify_using_context" THEN
        (IF Len(r.D) > Len(d.D) THEN "C09:simplify_using_context-increases-the-number-of-disjuncts"
         ELSE IF Len(BB) = 0 THEN "ok"
